@@ -102,7 +102,7 @@ func fnByName(name string) *FnDef {
 
 const (
 	perFnQuick    = 6000
-	perFnThorough = 250000
+	perFnThorough = 2000000
 )
 
 func (Driver) Run(c *core.Ctx) {
